@@ -37,7 +37,7 @@ CHECKS.update({
     "C03": {"technique": "TLA+ specs V2Match (InBounds model check), V2Retain (overlap filter: Ordered, NonEmpty; every small candidate set injected into the real match()) and V2Tokenizer (TLC-enumerated inputs replayed into the real tokenizer: what a word is) + buffer-alignment sweep + recorded Match histories validated by TLC against V2Contract.WellFormed / RetainRet",
             "text": "Arbitrary byte inputs, texts edited at rates bracketing 1-threshold, concatenations and scenario files at 7 thresholds and corpora with odd names; TLC evaluates threshold <= confidence <= 1.0 (as ranks), corpus membership, line/token bounds and ordering on every return.",
             "note": "sampled inputs; thresholds below 0.5 on small corpora."},
-    "C04": {"technique": "TLA+ specs V2Match / V2Score / V2Runes replayed into the real stage, scoring and id-channel functions (a deterministic spec function is the reference: tie orders, map-ranging rules, id boundaries) + recorded call histories of 5 classifiers x 3 processes validated by TLC (memo of results per input, PureMatch/PureGrow guards incl. the caller's spare capacity)",
+    "C04": {"technique": "TLA+ spec V2Corpus (the classifier's long-lived state as a state machine; IdsStable, Replace, MatchIsPure) model-checked and every short history replayed on a real Classifier; specs V2Match / V2Score / V2Runes replayed into the real stage, scoring and id-channel functions (a deterministic spec function is the reference: tie orders, map-ranging rules, id boundaries) + recorded call histories of 5 classifiers x 3 processes validated by TLC (memo of results per input, PureMatch/PureGrow guards incl. the caller's spare capacity)",
             "text": "The same inputs are matched on classifiers that differ in insertion order, unrelated extra documents, tracing and instance, with interleaved Match/MatchFrom/Normalize calls and in separate processes; TLC requires identical projected Results per input and unchanged documents, dictionary and caller bytes.",
             "note": "sampled inputs and histories; map seeds vary by process."},
     "C05": {"technique": _V2 + "; relational invariants Recase/Respace/Decorate/Typographic/BlankLine",
